@@ -58,4 +58,11 @@ theorem intoSeqUnsorted_order_dependent :
     strsOf (intoSeqUnsorted (.map [("B", .null), ("A", .str "1")])) = some ["B", "A=1"] := by
   decide
 
+/-- a loop that returns the first error reports a different one under another iteration order
+(only *whether* there is an error is order independent: `Props.C02.rangeCheck_perm`) -/
+theorem rangeCheck_which_error_order_dependent :
+    rangeCheck (fun k (v : Nat) => if v = 0 then some k else none) [("a", 0), ("b", 0)] = some "a" ∧
+    rangeCheck (fun k (v : Nat) => if v = 0 then some k else none) [("b", 0), ("a", 0)] = some "b" := by
+  decide
+
 end CV.Det.Neg
